@@ -150,10 +150,6 @@ func (p *Path) ensureInit(pkg *ssa.Package) {
 	if initFn == nil || initFn.Blocks == nil {
 		return
 	}
-	// set the guard so nested init checks pass
-	if g, ok := pkg.Members["init$guard"].(*ssa.Global); ok {
-		*p.globals[g] = p.tt.Bool(true)
-	}
 	saved := p.initingShallow
 	p.initingShallow = true
 	defer func() { p.initingShallow = saved }()
